@@ -87,6 +87,41 @@ def removal_oracle(R, cases, impl):
     return n
 
 
+def acceptance_oracle(R, exe, cases, impl):
+    """SPEC: whether a change is accepted does not depend on the history — a creation or an update the implementation
+    rejected has to be rejected as well when the rule sets in force (without the version being replaced) and the new
+    rules are loaded into an empty instance. (A rejection caused by stale state of earlier versions passes the model
+    comparison only if the model has the same defect.)"""
+    fresh, meta = [], []
+    for ci, (c, i) in enumerate(zip(cases, impl)):
+        if not isinstance(i, list):
+            continue
+        for k, (op, res) in enumerate(zip(c["ops"], i)):
+            if op["op"] in ("add", "upd") and res == "internal":
+                cur = current_sets(c["ops"][:k], i[:k])
+                if has_alias(cur.get(op["src"], [])):
+                    continue
+                if op["op"] == "upd":
+                    cur.pop(op["src"], None)
+                    cur[op["src"]] = list(op["rules"])
+                else:
+                    cur[op["src"]] = cur.get(op["src"], []) + op["rules"]
+                fresh.append(dict(c, ops=[{"op": "add", "src": s, "rules": r} for s, r in cur.items() if r]))
+                meta.append((ci, k))
+    res = vlib.run_cases([exe], fresh)
+    n = 0
+    for fc, fr, (ci, k) in zip(fresh, res, meta):
+        if isinstance(fr, list) and fr and all(x == "ok" for x in fr):
+            n += 1
+            if n <= 2:
+                c = cases[ci]
+                R.violation(f"a change was rejected because of the history: {c['ops'][k]['op']} of {c['ops'][k]['src']} "
+                            "fails, while the rule sets in force and the new rules load into an empty instance",
+                            {"case": dict(c, ops=c["ops"][:k + 1]), "impl": impl[ci][:k + 1], "fresh_case": fc,
+                             "fresh_results": fr, "kind": "impl-history-vs-impl-fresh"}, no_input=False)
+    return len(fresh)
+
+
 def probe_points(case):
     ops = case["ops"]
     pts = []
@@ -134,10 +169,17 @@ def run(R):
                             {"case": cases[ci], "upto": upto, "fresh_case": fc, "history_results": impl[ci],
                              "fresh_results": fi, "kind": "impl-history-vs-impl-fresh"}, no_input=False)
     rejected_deletes = removal_oracle(R, cases, impl)
+    acceptance_checks = acceptance_oracle(R, exe, cases, impl)
     st = rc.stats_sum(model)
     nops = {"add": 0, "upd": 0, "del": 0, "find": 0}
     rejected = 0
+    live_hist = {0: 0, 1: 0, 2: 0, 3: 0}
     for c, i in zip(cases, impl):
+        if isinstance(i, list):
+            mx = 0
+            for k in range(1, len(c["ops"]) + 1):
+                mx = max(mx, sum(1 for v in current_sets(c["ops"][:k], i[:k]).values() if v))
+            live_hist[min(mx, 3)] += 1
         for o, r in zip(c["ops"], i if isinstance(i, list) else []):
             nops[o["op"]] += 1
             if o["op"] != "find" and r != "ok":
@@ -150,6 +192,7 @@ def run(R):
                 "of changes, the same lookups against a freshly loaded real repository. Non-trivial = fresh-load "
                 "comparison after >= 1 update/delete in which a regular rule answered; distinct by case hash",
         "operations": nops, "rejected_changes": rejected, "rejected_deletes": rejected_deletes, "fresh_load_comparisons": len(fresh),
+        "rejections_checked_against_a_fresh_load": acceptance_checks, "max_sources_loaded_side_by_side": live_hist,
         "lookups_with_2plus_candidates": st.get("multi", 0), "lookups_matched": st.get("matched", 0),
         "lookups_default_rule": st.get("default", 0), "corpus_cases": len(corpus),
         "samples": [cases[len(corpus)]] if len(cases) > len(corpus) else [cases[0]],
